@@ -192,7 +192,13 @@ func (u *Unit) applyContract(p *Path, x *ssa.Call, callee *ssa.Function, bc *Bou
 	epoch := u.epochFor(p)
 	envFor := func(st, old *State, results []*Term) func(bool) *Env {
 		return func(fromIface bool) *Env {
-			return &Env{cx: u.cx, st: st, old: old, vars: u.v.contractVars(callee, bc.iface, fromIface, args, results), epochSt: epoch}
+			// recursive spec functions read the tree of the state a clause talks about: the state after the call
+			// for a postcondition, the state before it inside old()
+			env := &Env{cx: u.cx, st: st, old: old, vars: u.v.contractVars(callee, bc.iface, fromIface, args, results), epochSt: u.cx.snapshotIfChanged(st), epochSplit: true, epochOld: epoch}
+			if !fromIface {
+				env.contract = bc.own
+			}
+			return env
 		}
 	}
 	pre := p.st.Clone()
@@ -375,7 +381,7 @@ func (u *Unit) execInvoke(p *Path, x *ssa.Call) {
 		rs = append(rs, u.cx.Fresh("ret_"+cc.Method.Name(), u.v.enc.SortOf(sig.Results().At(i).Type())).WithT(sig.Results().At(i).Type()))
 	}
 	for _, cl := range c.Ensures {
-		env := &Env{cx: u.cx, st: p.st, old: pre, vars: u.v.ifaceInvokeVars(c, recv, args, rs, sig), epochSt: epoch}
+		env := &Env{cx: u.cx, st: p.st, old: pre, vars: u.v.ifaceInvokeVars(c, recv, args, rs, sig), epochSt: u.cx.snapshotIfChanged(p.st), epochSplit: true, epochOld: epoch}
 		g, err := env.EvalBool(cl.Expr)
 		if err != nil {
 			u.fail("ensures %s of %s: %v", cl.Label, key, err)
